@@ -999,8 +999,14 @@ class PackageGenerator:
         me_.add_import("import functools")
         me_.body.append("@functools.total_ordering\nclass Version:\n    def __init__(self, major: int = 0) -> None:\n        self.major = major\n\n"
                         "    def __eq__(self, other: object) -> bool:\n        return True\n\n    def __lt__(self, other: \"Version\") -> bool:\n        return False\n")
-        me_.all_classes += ["Registry", "Version"]
-        me_.public_classes += ["Registry", "Version"]
+        # ... and scikit-learn style numpydoc entries whose default is a call of a long dotted name
+        me_.body.append('class Tuned:\n    """A tuned thing.\n\n    Parameters\n    ----------\n'
+                        '    cv : object, default=model_selection.splitters.StratifiedShuffleKFold(n_splits=5)\n        The splitter.\n'
+                        '    depth : int, default=3\n        The depth.\n\n    Attributes\n    ----------\n'
+                        '    best_ : dict, default=collections_extra.ordered.DefaultOrderedMapping(list)\n        The best.\n    """\n\n'
+                        '    def __init__(self, cv=None, depth=3) -> None:\n        self.best_ = {}\n')
+        me_.all_classes += ["Registry", "Version", "Tuned"]
+        me_.public_classes += ["Registry", "Version", "Tuned"]
 
         # --- files
         files: dict[str, str] = {}
